@@ -115,7 +115,8 @@ impl RequestHandler<Rename> for RenameHandler {
                         .into_iter()
                         .map(|dl| {
                             let sl = codegen.analysis().look_up(dl.span);
-                            let path = IdentifierPath::from(sl.file.source_slice(dl.span));
+                            let path =
+                                IdentifierPath::from(usage_path(sl.file.source_slice(dl.span)));
                             (
                                 dl,
                                 (
@@ -128,6 +129,12 @@ impl RequestHandler<Rename> for RenameHandler {
                         })
                         .collect::<HashMap<_, _>>();
 
+                    // What is the symbol called right now?
+                    let old_name = {
+                        let sl = codegen.analysis().look_up(location.span);
+                        Identifier::from(sl.file.source_slice(location.span))
+                    };
+
                     // Now, rename the actual symbol
                     codegen.symbols_mut().rename(
                         location.parent_scope,
@@ -137,8 +144,12 @@ impl RequestHandler<Rename> for RenameHandler {
 
                     // And rename it across all other paths by which it may be reached
                     // (other paths may exist due to imports)
+                    // But not the paths that reach it by another name (`.import name as alias`): the alias stays what it is
                     for (dl, (steps, _)) in steps.iter() {
                         if let Some(QueryTraversalStep::Symbol(nx)) = steps.last() {
+                            if codegen.symbols().children(dl.parent_scope).get(&old_name) != Some(nx) {
+                                continue;
+                            }
                             codegen.symbols_mut().rename(
                                 dl.parent_scope,
                                 *nx,
@@ -151,6 +162,11 @@ impl RequestHandler<Rename> for RenameHandler {
                     let new_paths = steps
                         .into_iter()
                         .filter_map(|(dl, (query_traversal_steps, old_path))| {
+                            if query_traversal_steps.is_empty() {
+                                // The usage does not reach the symbol by a path from where it stands (e.g. the original name
+                                // in `.import name as alias`): it is simply the name of the symbol
+                                return None;
+                            }
                             let include_super = old_path.contains_super();
                             codegen
                                 .symbols()
@@ -167,7 +183,12 @@ impl RequestHandler<Rename> for RenameHandler {
                         .definition_and_usages()
                         .into_iter()
                         .map(|dl| {
-                            let loc = to_location(codegen.analysis().look_up(dl.span));
+                            // Only the path is replaced (the usage of an imported symbol is `name as alias`)
+                            let sl = codegen.analysis().look_up(dl.span);
+                            let path_len = usage_path(sl.file.source_slice(dl.span)).len() as u64;
+                            let loc = to_location(
+                                codegen.analysis().look_up(dl.span.subspan(0, path_len)),
+                            );
 
                             // We either grab a renamed usage, or we fallback to the name specified by the user for the source definition
                             let new_text = match new_paths.get(dl) {
@@ -193,6 +214,14 @@ impl RequestHandler<Rename> for RenameHandler {
             }
         }
     }
+}
+
+/// The identifier path a usage starts with
+fn usage_path(usage: &str) -> &str {
+    let len = usage
+        .find(|c: char| !(c.is_alphanumeric() || c == '_' || c == '.' || c == '-' || c == '+'))
+        .unwrap_or_else(|| usage.len());
+    &usage[..len]
 }
 
 #[cfg(test)]
